@@ -54,7 +54,20 @@ func genAloneRCase(r *sim.Rng, tier string) *RCase {
 // compares with the generator content and the reference decoder (three-way).
 func runForeignStream(c *RCase, x *sim.Ctx) *sim.Violation {
 	b := c.Stream.Build()
+	// a stream from the library's own writer is an input here, not the subject:
+	// if the writer fails or the reference decoder rejects what it wrote, the
+	// case is left to the writer checks and the batch goes on
+	skipLib := func(why string) bool {
+		if c.Stream.fromLibrary() {
+			x.Count("library-written inputs "+why+" (left to the writer checks)", 1)
+			return true
+		}
+		return false
+	}
 	if b.Err != nil {
+		if skipLib("that could not be written") {
+			return nil
+		}
 		sim.Infra("cannot build stream %+v: %v", c.Stream, b.Err)
 	}
 	x.Shape(c.Stream.Kind)
@@ -64,6 +77,9 @@ func runForeignStream(c *RCase, x *sim.Ctx) *sim.Violation {
 	case "lzma":
 		ref, err := reflzma.DecodeAlone(b.Stream, false)
 		if err != nil || !bytes.Equal(ref.Out, b.Content) {
+			if skipLib("the reference decoder does not reproduce") {
+				return nil
+			}
 			sim.Infra("oracle disagreement: reflzma does not reproduce the content of a %s stream (err=%v)", c.Stream.Kind, err)
 		}
 		if ref.Header.Size == 0 {
@@ -79,12 +95,18 @@ func runForeignStream(c *RCase, x *sim.Ctx) *sim.Violation {
 	case "lzma2":
 		ref, err := reflzma.DecodeLZMA2(b.Stream, b.Dict, true, false)
 		if err != nil || !bytes.Equal(ref.Out, b.Content) {
+			if skipLib("the reference decoder does not reproduce") {
+				return nil
+			}
 			sim.Infra("oracle disagreement: reflzma does not reproduce the content of a %s stream (err=%v)", c.Stream.Kind, err)
 		}
 		probeTrace(&ref.Trace, x)
 	case "xz":
 		f := xzSpans(b.Stream)
 		if f == nil || !bytes.Equal(f.Content, b.Content) {
+			if skipLib("the reference decoder does not reproduce") {
+				return nil
+			}
 			sim.Infra("oracle disagreement: refxz does not reproduce the content of a %s stream", c.Stream.Kind)
 		}
 		for _, st := range f.Streams {
